@@ -341,8 +341,10 @@ def compare(decoded, exp):
             for k, w in want.items():
                 if k in ('flags', 'flag_names') and obs['flags'] is None:
                     continue  # flag byte not decoded for this namespace: those bits are not covered
-                if k in ('type_names', 'flag_names') and obs[k] is None:
-                    continue  # left as a raw integer by the decoder
+                if k in ('type_names', 'flag_names') and obs[k] is None and (not w or any(x is None for x in w)):
+                    continue  # a value the format does not define, left as a raw integer by the decoder
+                if k == 'flag_names' and obs[k] is None and want.get('namespace') not in (3, 4):
+                    continue  # namespaces whose flag byte has no symbolic table
                 if obs[k] != w:
                     bad.append((f'trace_identifier.{k}', obs[k], w))
             continue
